@@ -5,6 +5,10 @@
 -/
 import AnyVecModel.Proofs.Exec
 import AnyVecModel.Proofs.KernelApiAccess
+import AnyVecModel.Proofs.KernelDelegAccess
+import AnyVecModel.Proofs.KernelDelegValue
+import AnyVecModel.Props.Refine
+import AnyVecModel.Proofs.KernelSwap
 namespace AnyVec
 namespace C13
 open World
@@ -109,6 +113,55 @@ theorem accessors_are_the_source (cfg : Cfg) (w : World) (v i : Nat) (d : VecSt)
   have t := KernelTie.typed_access_tie d.len i
   have g := KernelTie.get_tie cfg w v i d hv hl
   exact ⟨⟨g.1, a.2.1, a.2.2.1, a.2.2.2.1, t.1, t.2.1, t.2.2.1, t.2.2.2.1, a.2.2.2.2.1, a.2.2.2.2.2.1⟩, g.2.1, g.2.2⟩
+
+/-- **source tie**: the unchecked accessors and the range-iterator wrapper are plain forwards (same index, no ownership taken) - as the source has them on this run. -/
+theorem unchecked_accessors_are_the_source (len : Nat) (index : Nat) (known : Bool) :
+    Gen.Kernel.anyvec_insert_unchecked_trace len index = [.call "insert_unchecked" [index]] ∧
+    Gen.Kernel.anyvec_push_unchecked_trace len index = [.call "push_unchecked" []] ∧
+    Gen.Kernel.anyvec_get_unchecked_trace len index = [.call "get_unchecked" [index], .call "NonNull::new_unchecked" [], .call "ElementPointer::new" [], .call "ManuallyDrop::new" [], .call "ElementRef" []] ∧
+    Gen.Kernel.anyvec_get_unchecked_mut_trace len index = [.call "get_unchecked_mut" [index], .call "NonNull::new_unchecked" [], .call "ElementPointer::new" [], .call "ManuallyDrop::new" [], .call "ElementMut" []] ∧
+    Gen.Kernel.typed_iter_mut_trace len index = [.call "as_mut_slice" [], .call "iter_mut" []] ∧
+    Gen.Kernel.typed_get_unchecked_trace len index = [.call "as_slice" [], .call "get_unchecked" [index]] ∧
+    Gen.Kernel.typed_get_unchecked_mut_trace len index = [.call "as_mut_slice" [], .call "get_unchecked_mut" [index]] ∧
+    Gen.Kernel.opsiter_next_trace known = [.call "iter_mut" [], .call "next" []] ∧
+    Gen.Kernel.opsiter_next_back_trace known = [.call "iter_mut" [], .call "next_back" []] ∧
+    Gen.Kernel.opsiter_len_trace known = [.call "iter" [], .call "len" []] ∧
+    Gen.Kernel.opsiter_size_hint_trace known = [.call "iter" [], .call "size_hint" []] :=
+  KernelTie.deleg_access_tie len index known
+
+/-- **source tie**: what handles report about themselves (size by the erased / typed path the right way round, the vector's type id, the operation's element pointer, one-element clone) - as the source has them on this run. -/
+theorem self_reports_are_the_source (known : Bool) :
+    Gen.Kernel.temp_bytes_len_trace known = [.branch (!known) [.call "any_vec_raw" [], .call "element_layout" [], .call "size" []] [.call "mem::size_of" []]] ∧
+    Gen.Kernel.temp_size_trace known = [.call "bytes_len" []] ∧
+    Gen.Kernel.temp_as_bytes_ptr_trace known = [.call "bytes" []] ∧
+    Gen.Kernel.temp_clone_into_trace known = [.call "any_vec_ptr" [], .call "any_vec" [], .call "clone_fn" [], .call "as_bytes" [], .call "as_ptr" [], .call "clone_fn" [1]] ∧
+    Gen.Kernel.element_size_trace known = [.call "any_vec_raw" [], .call "element_layout" [], .call "size" []] ∧
+    Gen.Kernel.element_value_typeid_trace known = [.call "= self.any_vec_raw().type_id" []] ∧
+    Gen.Kernel.element_clone_into_trace known = [.call "any_vec" [], .call "clone_fn" [], .call "as_bytes" [], .call "as_ptr" [], .call "clone_fn" [1]] ∧
+    Gen.Kernel.lib_copy_nonoverlapping_value_trace known = [.branch known [.call "ptr::copy_nonoverlapping" [1]] [.call "ptr::copy_nonoverlapping" []]] ∧
+    Gen.Kernel.ptr_element_size_trace known = [.branch (!known) [.call "any_vec_raw" [], .call "element_layout" [], .call "size" []] [.call "size_of" []]] ∧
+    Gen.Kernel.ptr_element_typeid_trace known = [.branch (!known) [.call "any_vec_raw" []] [.call "TypeId::of" []]] :=
+  KernelTie.deleg_value_tie known
+
+/-- **reads refine the abstract vector** (Props/Refine.lean): in every world related to an abstract `Vec` - in particular
+after any history of element-wise operations from any reachable world - `get(i)` shows exactly the abstract item at
+`i`, `None` past the end, and changes nothing; `at(i)` is the same inside the bounds. -/
+theorem get_shows_the_abstract_item (cfg : Cfg) (v ty i : Nat) (w : World) (s : Refine.Spec)
+    (h : Refine.Rel v ty w s) :
+    step cfg (.get v i false) w = (w, .ok [match s.items[i]? with | some id => cfg.tok id | none => "N"]) ∧
+    (i < s.items.length → step cfg (.get v i true) w = step cfg (.get v i false) w) :=
+  Refine.get_refines cfg v ty i w s h
+
+/-- **source tie**: a value swap (`AnyValueTypelessMut::swap_unchecked`, source of this run) exchanges whole values:
+`mem::swap` of the typed references when either operand's type is known at compile time, otherwise one
+`swap_nonoverlapping` over exactly the left value's `size()` bytes. -/
+theorem swaps_are_the_source (known otherKnown : Bool) :
+    Gen.Kernel.value_swap_unchecked_trace known otherKnown =
+      [.branch known [.call "downcast_mut_unchecked" [], .call "downcast_mut_unchecked" [], .call "mem::swap" []]
+        [.branch otherKnown [.call "downcast_mut_unchecked" [], .call "downcast_mut_unchecked" [], .call "mem::swap" []]
+          [.call "as_bytes_mut" [], .call "as_mut_ptr" [], .call "as_bytes_mut" [], .call "as_mut_ptr" [], .call "len" [],
+           .call "ptr::swap_nonoverlapping" []]]] :=
+  KernelTie.swap_unchecked_tie known otherKnown
 
 end C13
 end AnyVec
